@@ -261,6 +261,8 @@ def run(prog, tier):
     obs.append(_input_layout(fn, construct))
 
     obs.extend(dtype_hazard_obligations(prog, "float-arithmetic", ['inference/pdf/hdi.py']))
+    from .common import call_order_obligations
+    obs.extend(call_order_obligations(prog, "arguments-in-order", ['inference/pdf/hdi.py']))
 
     meta = {
         "explanation": "Ownership analysis of sample_hdi (copy before resize/sort; a removed copy is reported), normal-form "
